@@ -12,6 +12,7 @@ import GwModel.FindPts
 import GwModel.Drv.PlanCodec
 import GwModel.Exec.Machine
 import GwModel.ExecSeq
+import GwModel.ScrubApply
 /-! gwdrv: one JSON object per line in, one per line out (DESIGN §2.2). Core + Lean.Data.Json only. -/
 open Lean Codec
 
@@ -166,6 +167,24 @@ def runExec (j : Json) : Json :=
       ("calls", .num (JsonNumber.fromNat st.calls)), ("missing", .num (JsonNumber.fromNat st.missing))]
   (act.run {}).1
 
+/-- {"infos":[…], "chunk":{…}}: the response after `scrubInsertionIDs` for one listed location, or {"error":…} -/
+def runScrubApply (j : Json) : Json :=
+  let act : StateM Intern Json := do
+    let _ ← Intern.intern "id"     -- key 0
+    let mut infos : List Fp.PInfo := []
+    for i in getArr j "infos" do
+      let k ← Intern.intern (getStr i "key")
+      infos := infos ++ [{ key := k, found := getBool i "found", isList := getBool i "isList", nonNull := getBool i "nonNull" }]
+    let chunk ← decIns ((getObj? j "chunk").getD (Json.mkObj []))
+    let st ← MonadState.get
+    match chunk with
+    | .obj kvs =>
+      match Scr.scrubLocation infos kvs with
+      | none => return Json.mkObj [("error", .str "scrub failed")]
+      | some res => return Json.mkObj [("result", encIns st res)]
+    | _ => return Json.mkObj [("error", .str "chunk-not-object")]
+  (act.run {}).1
+
 def runPoint (j : Json) : Json :=
   let p := (getStr j "point").toList
   match Pt.parsePoint p with
@@ -210,6 +229,7 @@ def handle (j : Json) : Json :=
   | "plan" => PlanCodec.runPlan j
   | "trace" => runTrace j
   | "exec" => runExec j
+  | "scrubapply" => runScrubApply j
   | "insert" => runInsert j
   | "point" => runPoint j
   | "findpts" => runFindPts j
